@@ -25,6 +25,20 @@ fn geometry_list(ctx: &Ctx, rng: &mut Rng) -> Vec<Geom> {
             out.push(g);
         }
     }
+    // root directories whose size does not fill the last block, and very large ones, at the
+    // classification boundaries (the root size enters the cluster count)
+    for clusters in [4085u32, 65524] {
+        for root in [24u32, 40, 100, 200, 2048, 4096] {
+            for spc in [1u32, 2, 4] {
+                let mut g = Geom::base_fat16(clusters, spc);
+                g.root_entries = root;
+                g.tail = spc - 1;
+                g.nfats = 1 + rng.below(2) as u32;
+                g.part_slot = rng.usize_below(4);
+                out.push(g);
+            }
+        }
+    }
     // the systematic sweep of the statement
     let spcs = [1u32, 2, 4, 8, 16, 32, 64, 128];
     for &spc in &spcs {
@@ -36,7 +50,7 @@ fn geometry_list(ctx: &Ctx, rng: &mut Rng) -> Vec<Geom> {
                 let mut g = if fat32 { Geom::base_fat32(clusters, spc) } else { Geom::base_fat16(clusters, spc) };
                 g.nfats = nfats;
                 g.reserved = if fat32 { *rng.pick(&[2u32, 7, 32, 65535]) } else { *rng.pick(&[1u32, 2, 32, 65535]) };
-                g.root_entries = if fat32 { 0 } else { *rng.pick(&[16u32, 32, 112, 512]) };
+                g.root_entries = if fat32 { 0 } else { *rng.pick(&[16u32, 32, 112, 512, 1024, 2048]) };
                 g.force_total32 = rng.chance(1, 2);
                 g.part_slot = rng.usize_below(4);
                 g.part_start = *rng.pick(&[1u32, 63, 2048, 0xFFF0_0000]);
